@@ -214,6 +214,148 @@ def p4_conditional_job_ids(F, r):
             r.fail(inst, "conditional job id is built/parsed with a template that differs from `<vehicle>_<type>_<shift>_<index>`: breaks/reloads written by one reader are not found by the other (lost or duplicated stops)", f"{a['file']}:{a['line']}")
 
 
+# A job is in exactly one of: a tour, `required`, `ignored`, `unassigned`. Functions that MOVE jobs into a place must take them out of the places they can
+# come from; each row was confirmed by reading the function (arrival place -> places that must be cleaned in the same function or a direct callee).
+MOVES = {
+    "vrp_core::construction::heuristics::insertions::apply_insertion_success": [("tour", ("required", "unassigned"), "an inserted job leaves the to-do list and a former failure record")],
+    "vrp_core::construction::heuristics::insertions::apply_insertion_failure": [("unassigned", ("required",), "a job that failed insertion leaves the to-do list")],
+    "vrp_core::construction::heuristics::insertions::finalize_unassigned": [("unassigned", ("required",), "left-overs become unassigned")],
+    "vrp_core::construction::heuristics::factories::update_insertion_context": [("unassigned", ("required",), "required jobs of an initial solution are drained into unassigned")],
+    "vrp_core::construction::enablers::conditional_job::process_conditional_jobs": [("ignored", ("required", "unassigned"), "a conditional job that becomes pending leaves required and any failure record"),
+                                                                                      ("required", ("ignored",), "a promoted conditional job leaves the pending list")],
+    "<vrp_core::construction::enablers::multi_trip::MultiTripState as vrp_core::models::goal::FeatureState>::accept_insertion": [
+        ("ignored", ("required", "unassigned"), "markers that are no longer needed go back to pending"), ("required", ("ignored",), "markers needed for a new interval leave pending")],
+    "<vrp_core::construction::features::recharge::RechargeableMultiTrip as vrp_core::construction::enablers::multi_trip::MultiTrip>::try_recover": [("required", ("ignored",), "recharge markers promoted for recovery")],
+    "vrp_core::construction::enablers::route_intervals::RouteIntervals::promote_markers_when_needed": [("required", ("ignored",), "markers promoted to required")],
+    "vrp_core::construction::enablers::route_intervals::RouteIntervals::remove_trivial_markers": [("ignored", ("tour",), "a useless marker goes from its tour back to pending")],
+    "vrp_core::construction::features::breaks::OptionalBreakState::<JT>::remove_invalid_breaks": [("unassigned", ("tour",), "an invalid break leaves its tour"), ("ignored", ("unassigned",), "a stale break record moves to pending")],
+    "vrp_core::solver::search::redistribute_search::remove_jobs": [("unassigned", ("tour",), "redistributed jobs leave their tour")],
+    "vrp_core::solver::search::utils::removal::JobRemovalTracker::try_remove_job": [("required", ("tour",), "a ruined job leaves its tour")],
+    "vrp_core::solver::search::utils::removal::JobRemovalTracker::remove_whole_route": [("required", ("routes",), "jobs of a dissolved route; the route is dropped")],
+    "<vrp_core::solver::search::local::exchange_intra_route::ExchangeIntraRouteRandom as vrp_core::solver::search::local::LocalOperator>::explore": [("required", ("tour",), "the job to re-insert leaves its tour")],
+    "vrp_core::construction::probing::repair_solution::repair_solution_from_unknown": [("tour", ("unassigned", "ignored", "required"), "jobs restored into tours by synchronize_jobs leave every list")],
+}
+
+
+def p6_moves_clean_sources(F, r):
+    eff = effects(F)
+    n = 0
+    for root, rows in sorted(MOVES.items()):
+        if root not in F.fns:
+            r.fail(f"{util.short_fn(root)}: anchor", "function of the move table not found (renamed?): update vv/rules/c02.py MOVES after reading the new code", None)
+            continue
+        near = [root] + sorted(_direct_callee_roots(F, root))
+        arr = set()
+        rem = {}
+        for g in near:
+            if g in eff:
+                arr |= {a.rstrip("=") for a in eff[g]["arr"]}
+                for pl, site in eff[g]["rem"].items():
+                    rem.setdefault(pl.rstrip("="), site)
+        for g in near[1:]:
+            for h in _direct_callee_roots(F, g):   # arrivals may sit one helper deeper (synchronize_jobs -> ShadowContext::insert)
+                if h in eff:
+                    arr |= {a.rstrip("=") for a in eff[h]["arr"]}
+        name = util.short_fn(root)
+        for place, sources, why in rows:
+            n += 1
+            if place not in arr:
+                r.ok(f"{name}: -> {place}", "no longer adds jobs to this place (nothing to clean)")
+                continue
+            miss = [s_ for s_ in sources if s_ not in rem]
+            if miss:
+                fid, ln = eff[root]["arr"].get(place, (root, None)) if root in eff else (root, None)
+                r.fail(f"{name}: -> {place}", f"jobs are added to `{place}` but no longer removed from `{'`, `'.join(miss)}` ({why}): the same job is then listed in two places "
+                       "(served and unassigned/pending at once, or re-queued while still assigned)", F.loc(fid, ln))
+            else:
+                r.ok(f"{name}: -> {place}", f"cleans {', '.join(sources)} ({why})")
+    if n < 18:
+        raise AnchorError(f"only {n} move obligations evaluated")
+
+
+def o1_subjob_order(F, r):
+    """sub-jobs of a multi job are inserted left to right: the leg search for the next sub-job starts after the previous one"""
+    sb = "vrp_core::construction::heuristics::selectors::LegSelection::sample_best"
+    if sb not in F.fns:
+        raise AnchorError(sb)
+    fn = F.fns[sb]
+    skip_arg = [int(k) for k, v in fn["names"].items() if v == "skip" and int(k) <= fn["argc"]]
+    if not skip_arg:
+        raise AnchorError("sample_best: no `skip` parameter")
+    skip_arg = skip_arg[0]
+    legs = [(bi, t) for bi, t in mir.calls(fn) if t["callee"] == TOUR + "legs"]
+    if not legs:
+        raise AnchorError("sample_best: no Tour::legs enumeration")
+    for k, (bi, t) in enumerate(legs):
+        d = t["dest"]["l"]
+        cons = [(bj, tt) for bj, tt in mir.calls(fn) if tt["args"] and mir.is_place(tt["args"][0]) and tt["args"][0]["l"] == d and not tt["args"][0]["p"]]
+        inst = f"sample_best: legs#{k + 1}"
+        if len(cons) == 1 and cons[0][1]["callee"].endswith("Iterator::skip") and any(kk == "arg" and v == skip_arg for kk, v, p in mir.trace(fn, cons[0][1]["args"][1])):
+            r.ok(inst, "enumeration starts at the requested leg (.skip(skip))")
+        else:
+            r.fail(inst, "this leg enumeration ignores the start index requested by the caller: the next sub-job of a multi job (e.g. the delivery of a pickup-delivery pair) "
+                   "can be placed before the previous one", F.loc(sb, t["ln"]))
+    ar = F.find1("evaluators::analyze_insertion_in_route")
+    f2 = F.fns[ar]
+    calls = [(bi, t) for bi, t in mir.calls(f2) if t["callee"] == sb]
+    if not calls:
+        raise AnchorError("analyze_insertion_in_route: no sample_best call")
+    init_arg = [int(k) for k, v in f2["names"].items() if v == "init" and int(k) <= f2["argc"]]
+    for bi, t in calls:
+        tr = mir.trace(f2, t["args"][skip_arg - 1])
+        if any(kk == "arg" and p and p[-1] == "index" and (not init_arg or v == init_arg[0]) for kk, v, p in tr):
+            r.ok("analyze_insertion_in_route: start index", "search starts at init.index (index after the previous sub-job)")
+        else:
+            r.fail("analyze_insertion_in_route: start index", "the leg search no longer starts at the index carried by the running SingleContext (init.index)", F.loc(ar, t["ln"]))
+
+
+def p5_empty_tours_removed_last(F, r):
+    """in every function that drops empty tours, no state acceptance (which may strip marker jobs and leave a tour empty) can follow the drop"""
+    n = 0
+    for fid, fn in sorted(F.fns.items()):
+        if "::promoted[" in fid:
+            continue
+        rem = [bi for bi, t in mir.calls(fn) if t["callee"].endswith("SolutionContext::remove_empty_routes")]
+        if not rem:
+            continue
+        n += 1
+        acc = [(bi, t) for bi, t in mir.calls(fn) if t["callee"].endswith("::accept_solution_state")]
+        name = util.short_fn(fid)
+        if not acc:
+            r.ok(f"{name}: remove_empty_routes", "no state acceptance in this function")
+            continue
+        rets = set(mir.ret_blocks(fn))
+        for bi, t in acc:
+            seen = mir.reach_from_succs(fn, bi, blocked=set(rem))
+            if seen & rets:
+                r.fail(f"{name}: accept_solution_state -> return", "a path from the state acceptance (which removes obsolete break/reload/recharge markers) reaches the return without a later "
+                       "remove_empty_routes: a tour left with no job stays in the solution", F.loc(fid, t["ln"]))
+            else:
+                r.ok(f"{name}: accept_solution_state -> remove_empty_routes", "every path to the return drops empty tours afterwards")
+    if n < 1:
+        raise AnchorError("no caller of SolutionContext::remove_empty_routes")
+    restore = "vrp_core::construction::heuristics::context::InsertionContext::restore"
+    if restore not in F.fns:
+        raise AnchorError(restore)
+    if not any(t["callee"].endswith("SolutionContext::remove_empty_routes") for _, t in mir.calls(F.fns[restore])):
+        r.fail("InsertionContext::restore: remove_empty_routes", "restore no longer drops empty tours", F.loc(restore))
+    else:
+        r.ok("InsertionContext::restore: remove_empty_routes", "present")
+    users = [c for (c, kind, bi, t) in cg.callers(F, restore) if t is not None]
+    r.ok("restore callers", f"{len(set(users))} search/construct functions end with restore()")
+    if len(set(users)) < 5:
+        r.fail("restore callers floor", f"only {len(set(users))} callers of InsertionContext::restore (6 counted on the pinned tree)")
+
+
+def q1_no_self_comparison(F, r):
+    from .common import self_comparison_rule
+    n = self_comparison_rule(F, r, ("vrp_pragmatic::format", "vrp_core::construction::heuristics", "vrp_core::construction::probing", "vrp_core::construction::clustering",
+                                    "vrp_core::solver::processing", "vrp_core::models::solution", "vrp_core::models::problem"),
+                             "job/vehicle matching or bookkeeping guard")
+    if n < 300:
+        r.fail("comparison floor", f"only {n} comparison sites scanned")
+
+
 def run(ctx):
     ctx.explanation = (
         "Conservation shape of job movements over all MIR of vrp-core/pragmatic: every function (closures merged) that removes jobs from a job place "
@@ -224,4 +366,8 @@ def run(ctx):
     ctx.assumptions += ["job places are the four SolutionContext collections and tours; std collection method names classify removal/arrival"]
     ctx.run("C02-P1", "jobs removed from one place arrive in another (pairing with guard neighbourhood and reasoned table)", p1_pairing, floor=25)
     ctx.run("C02-P4", "conditional job id scheme shared by all builders and the re-reader", p4_conditional_job_ids, floor=5)
+    ctx.run("C02-O1", "sub-jobs of a multi job are inserted left to right (leg search honours the start index)", o1_subjob_order, floor=3)
+    ctx.run("C02-P6", "functions that move jobs into a place clean the places the jobs can come from (exclusive job places, reasoned table)", p6_moves_clean_sources, floor=18)
+    ctx.run("C02-P5", "empty tours are dropped after the last state acceptance in every function that drops them", p5_empty_tours_removed_last, floor=3)
+    ctx.run("C02-Q1", "no comparison relates a value to itself in job/vehicle matching code (constant guard)", q1_no_self_comparison, floor=1)
     ctx.run("C02-P3", "final report: unassigned ∪ required reported; every route reported and written", p3_final_report, floor=4)
